@@ -176,6 +176,46 @@ SPEC = {
 }
 
 
+def race_runs(ctx):
+    """supporting evidence only (a detector, not a proof): the binary built with Go's race detector runs every
+    combination of the flags that start goroutines; any report is a violation with the command as replay"""
+    import os
+    import subprocess
+    from .. import cli
+    exe = os.path.join(C.HARNESS, "bin", "inkfem_race")
+    env = dict(C.GOENV, CGO_ENABLED="1")
+    with C.Lock():
+        rc, out = C.sh(["go", "build", "-race", "-tags", "verif", "-o", exe, "."], cwd=C.REPO, env=env, timeout=900)
+    if rc != 0:
+        ctx.log("race-detector build not available here (%s): skipped" % out.strip()[-120:])
+        return 0
+    rng = __import__("random").Random(ctx.seed)
+    texts = [G.gen_portal(rng).text(), G.gen_name_collision(rng).text()]
+    ex = os.path.join(C.REPO, "examples", "loadsstr.inkfem")
+    if os.path.exists(ex):
+        texts.append(open(ex).read())
+    runs = 0
+    saved = cli.BIN
+    cli.BIN = exe
+    try:
+        for text in texts:
+            for args in (["solve", "-s", "-p", "x.inkfem"], ["solve", "-p", "-w", "x.inkfem"], ["solve", "-s", "-v", "x.inkfem"], ["pre", "x.inkfem"]):
+                for rep in range(2 if ctx.tier == "quick" else 10):
+                    r = cli.run(ctx, args, files={"x.inkfem": text}, env={"GORACE": "halt_on_error=1"}, name="c08race", timeout=300)
+                    runs += 1
+                    msg = (r.stderr or "") + (r.stdout or "")
+                    if "DATA RACE" in msg or "concurrent map" in msg:
+                        ctx.violation("the race detector reports a data race in `inkfem %s`: %s" % (" ".join(args), msg[msg.find("DATA RACE"):][:300].replace("\n", " | ")),
+                                      {"args": args, "text": text, "report": msg[-3000:]})
+                        return runs
+    finally:
+        cli.BIN = saved
+    return runs
+
+
 def run(ctx):
     _groups.clear()
     core.run(ctx, SPEC)
+    n = race_runs(ctx)
+    ctx.coverage["race_detector_runs"] = n
+    ctx.log("%d runs of the race-detector build (solve -s -p, solve -p -w, solve -s -v, pre): no report" % n if not any("race detector" in v[2] for v in ctx.violations) else "race detector reported a race")
